@@ -160,6 +160,9 @@ const preludeSrc = `class MyErr extends Error {}
 var SW = {sw: 1}, RET = {ret: 1};
 var V_obj = {}, V_valnull = {value: null}, V_val1 = {value: 1}, V_valget = {get value() { LOG("g", 0); throw 2; }};
 var EXOBJ = {ex: 1};
+var MKERR = function MKERR() {
+  return new MyErr("n");
+};
 var MKITER = function (nx) { var it = {}; it[Symbol.iterator] = function () { return {next: function () { return {value: nx(), done: false}; }}; }; return it; };
 var MKPROXY = function (nx) { return new Proxy({}, {get: nx}); };
 var MKJOB = function (h) { return Promise.resolve().then(h); };
@@ -173,12 +176,20 @@ const preExSrc = "\n  throw EXOBJ;"
 var preExPrg = goja.MustCompile("preex.js", preExSrc, false)
 var preExSite = &Site{"preex.js", 2, 3}
 
+// an innermost native that raises an Error object gets it from the script function MKERR: the object's stack
+// names this creation site
+var mkErrSite = func() *Site {
+	off := strings.Index(preludeSrc, `new MyErr("n")`)
+	l, c := posOf(preludeSrc, off)
+	return &Site{"prelude.js", l, c}
+}()
+
 var runPrgs = [3]*goja.Program{
 	aCall: goja.MustCompile("host.js", "N1()", false),
 	aNew:  goja.MustCompile("host.js", "new N1()", false),
 	aGet:  goja.MustCompile("host.js", "N1.x", false),
 }
 
-const probeSrc = `(function(){ var l = []; try { try { throw 7 } finally { l.push("f") } } catch (e) { l.push(e) } l.push((function(){ return arguments.length })(1,2)); return l.join() })()`
+const probeSrc = `(function(a, b){ var s = "f"; try { try { throw 7 } finally { s += "," } } catch (e) { s += e } return s + "," + arguments.length })(1,2)`
 
 var probePrg = goja.MustCompile("probe.js", probeSrc, false)
